@@ -6,7 +6,8 @@
 From BS Require Import Model.Base Model.Regex Model.Num Model.ExprParser Model.Script Model.ScriptX Model.Lower
   Gen.Unicode Proofs.ScriptFacts Proofs.C06 Proofs.C10 Proofs.C10ws Proofs.C10wsExpr Proofs.C10wsIndent
   Proofs.ExprFuel Proofs.C10wsFull Proofs.RegexShiftG Proofs.C10wsIndent2 Proofs.C10wsReturn
-  Proofs.C10tokLex Proofs.C10tokSpaced Proofs.RegexTrail Proofs.C10tokTrail Proofs.RegexTrail2.
+  Proofs.C10tokLex Proofs.C10tokSpaced Proofs.RegexTrail Proofs.C10tokTrail Proofs.RegexTrail2
+  Proofs.RegexTrail3 Proofs.C10stmtTrail Proofs.C10parseNoeq Proofs.C10classifyTrail.
 
 (* ---- LF versus CRLF: both texts have the same lines ---- *)
 Theorem C10_crlf : forall lines, lines <> [] -> Forall no_lf lines -> Forall (fun l => ends_cr l = false) lines ->
@@ -266,6 +267,84 @@ Proof.
   split; [|split; vm_compute; reflexivity].
   eexists. eexists. split; [vm_compute; reflexivity|]. split; [vm_compute; reflexivity|].
   eexists. split; vm_compute; reflexivity.
+Qed.
+
+(* ---- TRAILING white space of a STATEMENT line, at the level of classify (round 6, Proofs/RegexTrail3.v, C10stmtTrail.v,
+   C10parseNoeq.v, C10classifyTrail.v): EVERY statement kind — assignment, function begin / end, if / elif / else / endif,
+   while / endwhile, for / endfor, break, continue, label, jump, jumpif, return (bare and with an expression), include (both
+   forms), expression statement.  A line that classifies successfully as k is classified as the SAME k (same names, same
+   expression trees) with any run of `\s` characters appended; only an elif whose condition does not parse is left out
+   (indent_kind_all: that kind carries the parser's error record, which quotes the line).  Premise: no LF in the line and in
+   the run (`.` does not read LF: `x = 1` ++ LF ++ ` ` is not an assignment; the lines parse_script produces never contain LF,
+   C10_lines_have_no_lf).
+   How: for the fifteen regexes `X \s*$` and for jump the ENGINE answers with the same captures; for assignment
+   `(?P<expr>.+)$` and return `\S.*` the expr group absorbs the run (its text is the old text ++ ws: C10_ws_assignment_regex_trailing,
+   C10_ws_return_regex_trailing) and parse_expression ignores a trailing run (C10_ws_expression_trailing).  `x =` is NOT an
+   assignment while `x =  ` is one: "the assignment regex does not match" is preserved only for lines that do not end with
+   `=`, and a line that classifies successfully never ends with `=` (C10_ws_classified_not_eq_end: the other regexes end with
+   another character, and an expression that ends with `=` never parses: C10_expression_never_ends_eq). ---- *)
+Theorem C10_ws_trailing : forall n line ws k, white ws -> ~ In 10%N ws -> ~ In 10%N line -> indent_kind_all k = true ->
+  Lower.classify n line = ROk k -> Lower.classify n (line ++ ws) = ROk k.
+Proof. exact classify_trail_nolf. Qed.
+Print Assumptions C10_ws_trailing.
+
+(* indentation and trailing run together *)
+Theorem C10_ws_padding : forall n ws1 line ws2 k, white ws1 -> white ws2 -> ~ In 10%N ws1 -> ~ In 10%N ws2 -> ~ In 10%N line ->
+  indent_kind_all k = true -> Lower.classify n line = ROk k -> Lower.classify n (ws1 ++ line ++ ws2) = ROk k.
+Proof. exact classify_padded. Qed.
+Print Assumptions C10_ws_padding.
+
+Theorem C10_ws_classified_not_eq_end : forall n line k, ~ In 10%N line -> Lower.classify n line = ROk k ->
+  forall pre, line <> pre ++ [61%N].
+Proof. exact classify_ok_noeq_nolf. Qed.
+Print Assumptions C10_ws_classified_not_eq_end.
+
+Theorem C10_expression_never_ends_eq : forall t e, parse_expression (t ++ [61%N]) <> EOk e.
+Proof. intros t e H. exact (parse_ok_noeq _ _ H t eq_refl). Qed.
+Print Assumptions C10_expression_never_ends_eq.
+
+(* the engine-level statements behind it.  RelA line ws a b: both MNo, or both a match whose capture tables differ only in
+   the expr group 2, which ends at the end of the subject in both, and either its text on line ++ ws is its text on line
+   followed by ws, or both texts are white space (`x =  `: the group backs off to the last blank).  RelR line ws a b: both
+   MNo, or both a match with either the same capture table (bare return) or groups 1 (`return`) and 2 (expr) that end at the
+   end of the subject in both and start at the same place.  sim: both MNo or both a match with the same capture table. *)
+Theorem C10_ws_assignment_regex_trailing : forall line ws, white ws -> nolf ws -> nolf line -> noeq_end line ->
+  RelA line ws (rxm Gen.Regexes.R_SCRIPT_ASSIGNMENT (line ++ ws)) (rxm Gen.Regexes.R_SCRIPT_ASSIGNMENT line).
+Proof. exact assign_trail. Qed.
+Print Assumptions C10_ws_assignment_regex_trailing.
+Theorem C10_ws_return_regex_trailing : forall line ws, white ws -> nolf ws -> nolf line ->
+  RelR line ws (rxm Gen.Regexes.R_SCRIPT_RETURN (line ++ ws)) (rxm Gen.Regexes.R_SCRIPT_RETURN line).
+Proof. exact return_trail. Qed.
+Print Assumptions C10_ws_return_regex_trailing.
+Theorem C10_ws_jump_regex_trailing : forall line ws, white ws ->
+  sim (rxm Gen.Regexes.R_SCRIPT_JUMP (line ++ ws)) (rxm Gen.Regexes.R_SCRIPT_JUMP line).
+Proof. exact jump_trail. Qed.
+Print Assumptions C10_ws_jump_regex_trailing.
+
+(* non-vacuity: one line of every kind with the run blank, tab, blank appended; and the two counterexamples that shape the
+   premises (`x =` / `x =  `, and an LF in the run) *)
+Example C10_ex_ws_trailing :
+  white (U " \000009 ") /\ ~ In 10%N (U " \000009 ") /\
+  (forall l, In l [U "x = fn(1) + 2"; U "async function f(a, b...):"; U "endfunction"; U "if a < 1:"; U "elif b:"; U "else:";
+                   U "endif"; U "while i < 3 :"; U "endwhile"; U "for v, i in arr:"; U "endfor"; U "break"; U "continue";
+                   U "top:"; U "jump top"; U "jumpif (x > 1) top"; U "return"; U "return x + 1"; U "include 'a.bare'";
+                   U "include <b.bare>"; U "fn(x, 'y')"] ->
+     ~ In 10%N l /\ exists k, indent_kind_all k = true /\ Lower.classify 3 l = ROk k /\ Lower.classify 3 (l ++ U " \000009 ") = ROk k) /\
+  (exists e, Lower.classify 1 (U "x =") = RErr e) /\ (exists k, Lower.classify 1 (U "x =  ") = RErr k) /\
+  Lower.classify 1 (U "x =") <> Lower.classify 1 (U "x =  ") /\
+  (exists k, Lower.classify 1 (U "x = 1") = ROk k /\ Lower.classify 1 (U "x = 1\00000a ") <> ROk k).
+Proof.
+  split; [intros c I; vm_compute in I; repeat (destruct I as [<-|I]; [reflexivity|]); contradiction|].
+  split; [intros I; vm_compute in I; repeat (destruct I as [I|I]; [discriminate I|]); contradiction|].
+  split.
+  { intros l I. cbn [In] in I.
+    repeat (destruct I as [<-|I];
+      [split; [intros J; vm_compute in J; repeat (destruct J as [J|J]; [discriminate J|]); contradiction|];
+       eexists; split; [|split; vm_compute; reflexivity]; reflexivity|]).
+    contradiction. }
+  split; [eexists; vm_compute; reflexivity|]. split; [eexists; vm_compute; reflexivity|].
+  split; [vm_compute; discriminate|].
+  eexists. split; [vm_compute; reflexivity | vm_compute; discriminate].
 Qed.
 
 (* C10_ws_tokens_partial — the FULL clause "breaking a line at any point where a space is allowed / changing indentation or
